@@ -111,7 +111,7 @@ pub fn checks(tier: Tier) -> Vec<Check> {
         Check {
             name: "C16.roundtrip".into(),
             strategy: roundtrip_strategy(),
-            cases: tier.scale(3_000, 30),
+            cases: tier.scale(15_000, 20),
             exec: Box::new(crate::ops::exec),
             oracle: Box::new(crate::mops::oracle),
             classify: Box::new(classify),
@@ -122,7 +122,7 @@ pub fn checks(tier: Tier) -> Vec<Check> {
         Check {
             name: "C16.deserialize-validates".into(),
             strategy: de_strategy(),
-            cases: tier.scale(4_000, 30),
+            cases: tier.scale(25_000, 20),
             exec: Box::new(crate::ops::exec),
             oracle: Box::new(crate::mops::oracle),
             classify: Box::new(classify),
